@@ -10,6 +10,12 @@ Ties, all evaluated inside Coq on literals generated here (coq/Gen/Cases_C04_*.v
     ttp:frameRate / frameRateMultiplier / tickRate.
 A second stream corrupts single attributes: the reader's result must equal the result for the document with the
 attribute removed, and a log record must be emitted (implementation against itself; judged here).
+About a third of the timing documents and of the style documents (hence of the pool of the corrupt stream) carry children that are
+no content elements - tt:metadata and ttm: elements, foreign and unknown elements, comments and processing instructions as
+ElementTree presents them - each with its own tail, in par and seq containers, before / after / between spans, br and set elements
+(imsc_common.NonContentGen; the distribution is printed and stored in the evidence).  A third stream checks the statement of
+C04_noncontent_children_transparent on the code itself: the document and the document without such children (tails kept in place)
+must be read as the same document up to the split of adjacent anonymous spans.
 The reader's patterns are compiled with re.ASCII: decimal digits outside ASCII are not digits for the code, as for the model."""
 import copy, os, re, sys, time
 from fractions import Fraction as F
@@ -19,7 +25,7 @@ import gen_tables
 import imsc_common as IC
 
 PROP = "C04"
-TARGETS = ["Model/ImscCases.vo", "Model/ImscParams.vo", "Proofs/C04/TimeSyntax.vo", "Proofs/C04/TimeReject.vo", "Proofs/C04/Interval.vo", "Proofs/C04/Total.vo", "Proofs/C04/Params.vo", "Proofs/C04/Tables.vo", "Proofs/C04/BadAttr.vo", "Proofs/C04/Styles.vo", "Proofs/C04/Flatten.vo", "Proofs/C04/Color.vo"]
+TARGETS = ["Model/ImscCases.vo", "Model/ImscParams.vo", "Proofs/C04/TimeSyntax.vo", "Proofs/C04/TimeReject.vo", "Proofs/C04/Interval.vo", "Proofs/C04/Total.vo", "Proofs/C04/Params.vo", "Proofs/C04/Tables.vo", "Proofs/C04/BadAttr.vo", "Proofs/C04/Styles.vo", "Proofs/C04/Flatten.vo", "Proofs/C04/Color.vo", "Proofs/C04/Transparent.vo"]
 HEADER = ("From TT Require Import Base.Prelude Base.ImscXml Model.ImscTime Model.ImscStyles Model.ImscTiming Model.ImscWrite Model.ImscWriteCases Spec.TtmlTimingSpec Model.ImscCases Model.ImscParams Proofs.C04.TimeReject.\n"
           "From Coq Require Import QArith.\nLocal Open Scope Z_scope.\n")
 GRAMMAR = re.compile(r"(\d+(\.\d+)?(h|m|s|ms|f|t)|\d{2,}:\d\d:\d\d(\.\d+)?|\d{2,}:\d\d:\d\d:\d{2,})\Z", re.ASCII)
@@ -220,6 +226,76 @@ def all_paths(tt):
     return out
 
 
+# ------------------------------------------------------------------------------------------ transparency stream
+def _tt_local(e):
+    return e.tag.split("}")[1] if isinstance(e.tag, str) and e.tag.startswith("{" + IC.NS_TT + "}") else None
+
+
+def keeps(parent, c):
+    """Spec/TtmlContentSpec.v keeps: the children an element reads"""
+    pl, cl = _tt_local(parent), _tt_local(c)
+    if pl == "tt": return cl in ("head", "body")
+    if pl == "head": return cl in ("layout", "styling")
+    if pl == "layout": return cl == "region"
+    if pl == "styling": return cl in ("initial", "style")
+    timed = cl in ("body", "div", "p", "span", "br", "set") or (cl == "region" and c.get(IC.q(IC.NS_XML, "id")) is not None)
+    if pl in ("body", "div", "p", "span", "br"): return timed
+    if pl == "region" and parent.get(IC.q(IC.NS_XML, "id")) is not None: return timed or cl == "style"
+    return False                                                   # set, and everything that is not read
+
+
+def strip_tree(e):
+    """Spec/TtmlContentSpec.v strip, on a copy: the children that are not kept are removed, each one's tail appended to the text before it"""
+    out = et.Element(e.tag, dict(e.attrib)) if isinstance(e.tag, str) else copy.copy(e)
+    out.text = e.text; out.tail = e.tail
+    if not isinstance(e.tag, str): return out
+    last = None
+    def add(t):
+        if t is None: return
+        if last is None: out.text = (out.text or "") + t if out.text is not None else t
+        else: last.tail = (last.tail or "") + t if last.tail is not None else t
+    for c in e:
+        if keeps(e, c):
+            k = strip_tree(c); k.tail = None; out.append(k); last = k
+        add(c.tail)
+    return out
+
+
+def break_shape_doc(tt):
+    """Spec/TtmlContentSpec.v style_after_break: the shape of the proposed finding seq-region-break-hides-nested-style"""
+    for r in tt.iter(IC.q(IC.NS_TT, "region")):
+        if r.get(IC.q(IC.NS_XML, "id")) is None or r.get("timeContainer") != "seq": continue
+        armed = dropped = False
+        for c in r:
+            cl = _tt_local(c)
+            if cl == "style":
+                if dropped: return True
+            elif keeps(r, c): armed = armed or cl != "set"
+            else: dropped = dropped or armed
+    return False
+
+
+def fuse(node):
+    """normal form of a dumped element up to the split of adjacent anonymous spans (same_node of the specification): adjacent text
+    nodes, and adjacent spans without anything but one text node and the same xml:space / xml:lang, are joined"""
+    if node[0] == "Text": return node
+    kids = []
+    for c in (fuse(x) for x in node[8]):
+        if kids:
+            a = kids[-1]
+            if a[0] == "Text" and c[0] == "Text":
+                kids[-1] = ("Text", a[1] + c[1]); continue
+            anon = lambda n: n[0] == "Span" and n[1] is None and n[2] == (None, None) and n[5] is None and not n[6] and not n[7] and len(n[8]) == 1 and n[8][0][0] == "Text"
+            if anon(a) and anon(c) and a[3:5] == c[3:5]:
+                kids[-1] = a[:8] + ([("Text", a[8][0][1] + c[8][0][1])],); continue
+        kids.append(c)
+    return node[:8] + (kids,)
+
+
+def fuse_doc(d):
+    return d[:6] + ([fuse(r) for r in d[6]], None if d[7] is None else fuse(d[7]))
+
+
 def classify_corrupt(name, on_tt, exc, same, logged, value=""):
     """finding id covering a failure of the ignored-and-logged clause, or None: every finding about attributes the reader knows is
     repaired (lax-value-syntax, zero-rate-division, tt-parameter-abort, bad-ruby-drops-span, lax-style-syntax), so nothing is excused"""
@@ -251,10 +327,15 @@ def main():
     docs = []       # (tt, table, ctx, flags, origin)
     for name, tt in seed_corpus():
         docs.append((tt, table_for(tt), ctx_of(tt), set(), "corpus:" + name))
+    nc_total = {}; nc_docs = 0; n_generated = 0; nc_tail_docs = 0
     while len(docs) < ndocs:
-        g = IC.DocGen(rng)
-        tt = g.document()
+        g = IC.DocGen(rng, p_noncontent=0.38)
+        tt = g.document(); n_generated += 1
+        if g.noncontent is not None:
+            nc_docs += 1; IC.merge_stats(nc_total, g.noncontent); g.flags.add("non-content")
+            if g.noncontent["tail_fresh"] + g.noncontent["tail_split"]: nc_tail_docs += 1
         docs.append((tt, g.table, g.ctx, g.flags, "generated"))
+    run.log(f"timing documents with children that are no content elements: {nc_docs} of {n_generated} generated ({100 * nc_docs // max(1, n_generated)}%), {nc_tail_docs} with tail text after one; distribution: {nc_total}")
     defs = []; recs = []
     t0 = time.time()
     for i, (tt, table, ctx, flags, origin) in enumerate(docs):
@@ -292,8 +373,10 @@ def main():
     pnames = DG.prop_names()
     nsty = 4000 if thorough else 300
     sdefs = []; sinfo = []
+    snc_total = {}; snc_docs = 0
     for i in range(nsty):
-        g = IC.StyleDocGen(rng); stt = g.document()
+        g = IC.StyleDocGen(rng, p_noncontent=0.35); stt = g.document()
+        if g.noncontent is not None: snc_docs += 1; IC.merge_stats(snc_total, g.noncontent); g.flags.add("non-content")
         lit = IC.Lit(); sl = IC.StyleLit(lit, stt)
         doc, exc, logs = IC.read_tree(copy.deepcopy(stt))
         vals = []
@@ -358,6 +441,7 @@ def main():
                   documents_with_forward_references=sum(1 for x in sinfo if x["forward"]),
                   invalid_value_in_style=sum(1 for x in sinfo if "style-invalid-value" in x["flags"]),
                   shadow_comma_space=sum(1 for x in sinfo if "textshadow-comma-space" in x["flags"]))
+    run.log(f"style documents with children that are no content elements: {snc_docs} of {nsty} ({100 * snc_docs // max(1, nsty)}%); distribution: {snc_total}")
     run.log(f"style documents: {nsty}, M/code mismatches {len(sm_bad)}, S failures {len(ss_bad)}, "
             f"reader exceptions {sum(1 for x in sinfo if x['exc'])}, reference loops (model only) {sum(1 for x in sinfo if 'style-loop' in x['flags'])}; graphs: {sshape}")
     for i in s_unlisted[:3]:
@@ -520,12 +604,32 @@ def main():
     for st, ex in col_exc[:2]:
         run.violation(f"parse_color({st[:80]!r}) raises {ex}", dict(kind="S-on-code", color=st, exception=ex))
 
+    # ---------------------------------------------------------------- transparency stream: the code on x and on strip x
+    tr_docs = [d[0] for d in docs if "non-content" in d[3]] + [x["doc"] for x in sinfo if "non-content" in x["flags"]]
+    tr_docs += [d[0] for d in docs[:40]]                              # the bundled files and a few documents without such children
+    tr_bad = []; tr_done = 0; tr_shape = 0; tr_changed = 0
+    for tt in tr_docs:
+        if break_shape_doc(tt): tr_shape += 1; continue
+        st = strip_tree(tt)
+        da, ea, _ = IC.read_tree(copy.deepcopy(tt)); db, eb, _ = IC.read_tree(copy.deepcopy(st))
+        tr_done += 1
+        if xml_text(st) != xml_text(tt): tr_changed += 1
+        if ea is not None or eb is not None or da is None or db is None:
+            if (ea, da is None) != (eb, db is None): tr_bad.append((tt, st, f"outcomes {ea or ('no document' if da is None else 'document')} / {eb or ('no document' if db is None else 'document')}"))
+            continue
+        if fuse_doc(dump_doc(da)) != fuse_doc(dump_doc(db)): tr_bad.append((tt, st, "the documents read differ by more than the split of adjacent anonymous spans"))
+    run.log(f"transparency stream: {tr_done} documents read with and without their non-content children ({tr_changed} changed by the removal, {tr_shape} in the shape of seq-region-break-hides-nested-style skipped), failures {len(tr_bad)}")
+    for tt, st, why in tr_bad[:2]:
+        run.violation("children that are no content elements are not transparent: " + why,
+                      dict(kind="S-on-code", clause="C04_noncontent_children_transparent on the code", document=xml_text(tt), stripped=xml_text(st), detail=why))
+
     # ---------------------------------------------------------------- corrupt stream
     ncor = 6000 if thorough else 500
     cor_fail = {}; cor_unlisted = []; ncor_done = 0; cor_classes = {}; cor_unreached = 0
-    pool = [d for d in docs if corruptible(d[0])] + [(x["doc"],) for x in sinfo if x["exc"] is None and corruptible(x["doc"])]
+    pool = [(d[0], "non-content" in d[3]) for d in docs if corruptible(d[0])] + [(x["doc"], "non-content" in x["flags"]) for x in sinfo if x["exc"] is None and corruptible(x["doc"])]
+    cor_nc = 0
     for it in range(ncor):
-        tt = rng.choice(pool)[0]
+        tt, has_nc = rng.choice(pool)
         unknown = it % 6 == 5
         if unknown:
             # an attribute the reader does not know: the meaning must not change (and it should be reported)
@@ -541,31 +645,31 @@ def main():
             b = copy.deepcopy(tt); del at_path(b, path).attrib[name]
         da, ea, la = IC.read_tree(a); db, eb, lb = IC.read_tree(b)
         if eb is not None or db is None: continue       # the base document itself hits a finding; judged by the document stream
-        ncor_done += 1
+        ncor_done += 1; cor_nc += has_nc
         cls = "unknown" if unknown else name.split("}")[-1]
         cor_classes[cls] = cor_classes.get(cls, 0) + 1
         same = ea is None and da is not None and dump_doc(da) == dump_doc(db)
         logged = len(la) > len(lb)
         if same and logged: continue
-        if same and not unknown and at_path(tt, path).tag != IC.q(IC.NS_TT, "tt"):
+        if same and not unknown and path != []:                       # not the root (a misplaced tt:tt inside the content is no root)
             # is the element read at all?  (children of a sequential container after a child that never ends, descendants of an element
             # the reader skips, ... are not: nothing is to be reported for them)  Probe: a malformed begin (end) on it must be reported.
             pr = copy.deepcopy(b); at_path(pr, path).set("end" if name == "begin" else "begin", "!")
             dp, ep, lp = IC.read_tree(pr)
             if ep is None and len(lp) <= len(lb):
                 cor_unreached += 1; continue
-        on_tt = at_path(tt, path).tag == IC.q(IC.NS_TT, "tt")
+        on_tt = path == []
         if unknown: fid = "unknown-attribute-not-logged" if same else None
         else: fid = classify_corrupt(name, on_tt, ea, same, logged, bad)
-        info = dict(attribute=name, value=bad, element=at_path(tt, path).tag, exception=ea, same_as_removed=same, logged=logged, document=xml_text(a))
+        info = dict(attribute=name, value=bad, element=str(at_path(tt, path).tag), exception=ea, same_as_removed=same, logged=logged, document=xml_text(a))
         if fid is None: cor_unlisted.append(info)
         else: cor_fail.setdefault(fid, []).append(info)
     for fid, infos in sorted(cor_fail.items()):
         if not run.known(fid, f"{len(infos)} corrupted attributes, e.g. {infos[0]['attribute'].split('}')[-1]}={infos[0]['value']!r}"):
             cor_unlisted += infos
-    run.log(f"corrupt stream: {ncor_done} single-attribute corruptions ({cor_unreached} on elements the reader does not reach), failures by finding { {k: len(v) for k, v in cor_fail.items()} }, unlisted {len(cor_unlisted)}")
+    run.log(f"corrupt stream: {ncor_done} single-attribute corruptions ({cor_nc} in documents with non-content children, {cor_unreached} on elements the reader does not reach), failures by finding { {k: len(v) for k, v in cor_fail.items()} }, unlisted {len(cor_unlisted)}")
     for info in cor_unlisted[:3]:
-        run.violation(f"malformed {info['attribute'].split('}')[-1]}={info['value']!r} on {info['element'].split('}')[-1]}: "
+        run.violation(f"malformed {info['attribute'].split('}')[-1]}={info['value']!r} on {str(info['element']).split('}')[-1]}: "
                       + (f"the reader raises {info['exception']}" if info["exception"] else
                          ("the result differs from the document without the attribute" if not info["same_as_removed"] else "no log record is emitted")),
                       dict(kind="S-on-code", clause="malformed attributes are ignored and reported", **info))
@@ -579,7 +683,7 @@ def main():
     all_broken = broken + tbroken + pbroken + sbroken + qbroken + cbroken
     qm_only = [i for i in qm_bad if qinfo[i][1] is None]
     n_mism = len(m_bad) + len(tm_bad) + len(pm_bad) + len(sm_bad) + len(qm_only) + len(cm_bad) + len(cw_bad)
-    s_fail_found = bool(unlisted or other_ts or p_unlisted or cor_unlisted or s_unlisted or q_exc or cs_bad or col_exc)
+    s_fail_found = bool(unlisted or other_ts or p_unlisted or cor_unlisted or s_unlisted or q_exc or cs_bad or col_exc or tr_bad)
     if (n_mism or all_broken or not proofs_ok) and not s_fail_found:
         what = []
         if not proofs_ok: what.append("theorems of coq/Properties/C04.v no longer check: " + getattr(run, "proof_log", "")[-600:])
@@ -604,7 +708,8 @@ def main():
                    distinct_nontrivial=changes + sum(1 for x in tinfo if x[3] == "val") + ncor_done,
                    rule="documents: grammar-generated TTML (every element kind incl. ruby, begin/end/dur in the 8 time-expression syntaxes under random "
                         "ttp:frameRate / frameRateMultiplier / tickRate, par and seq containers nested to depth >= 4, set, timed regions, mixed content, "
-                        "xml:space / xml:lang, region references) plus the bundled .ttml files; each is read by the code, dumped, and observed through "
+                        "xml:space / xml:lang, region references; in about a third of them children that are no content elements - metadata, foreign and unknown "
+                        "elements, comments, processing instructions - with tail text, anywhere) plus the bundled .ttml files; each is read by the code, dumped, and observed through "
                         "ISD.from_model at every boundary, midpoint and beyond. distinct_nontrivial = snapshots whose text differs from the previous probe "
                         "+ time strings with a value + single-attribute corruptions.",
                    samples=[dict(document=xml_text(docs[min(len(docs) - 1, 7)][0])[:600]), dict(time_expression=tinfo[0][0])],
@@ -615,7 +720,11 @@ def main():
                    time_strings=ntime, time_outcomes={k: sum(1 for x in tinfo if x[3] == k) for k in ("val", "bad", "zero")},
                    color_strings=len(cdefs), color_outcomes={k: sum(1 for x in cinfo if x[1] == k) for k in ("accepted", "rejected")}, color_shapes=dict(sorted(col_cats.items())),
                    parameter_sets=npar, tt_parameter_sets=nttp, corruptions=ncor_done, corruptions_by_attribute=cor_classes, corrupt_failures={k: len(v) for k, v in cor_fail.items()},
-                   model_code_mismatches=n_mism, s_failures_on_code=len(s_bad))
+                   model_code_mismatches=n_mism, s_failures_on_code=len(s_bad),
+                   noncontent_children=dict(timing_documents=nc_docs, of_generated=n_generated, with_tail_text=nc_tail_docs, distribution=nc_total,
+                                            style_documents=snc_docs, of_style_documents=nsty, style_distribution=snc_total,
+                                            corrupt_pool_documents=sum(1 for d in pool if d[1]), corruptions_in_such_documents=cor_nc,
+                                            transparency_documents=tr_done, transparency_changed=tr_changed, transparency_failures=len(tr_bad)))
     run.assumptions += ["XML parsing (expat / ElementTree) is outside the model: M and S start from the ElementTree structure",
                         "time-attribute strings are valued by S through the table of abstract expressions they were printed from (Coq re-prints and compares each)",
                         "style attribute values in the timing documents are well-formed; value syntax is checked by the style cases",
